@@ -25,6 +25,7 @@ type CaseA struct {
 	Classes []string            `json:"classes"`
 	Spell   map[string][]string `json:"spell,omitempty"` // attribute path -> spelling classes used for it
 	Pad     *Pad                `json:"pad,omitempty"`   // file-size class: padding expanded when the case is interpreted
+	Via     *Delivery           `json:"via,omitempty"`   // delivery class: the kind of path the loader is given (nil = regular file)
 }
 
 func genA(t *rapid.T) CaseA {
@@ -46,6 +47,7 @@ func genA(t *rapid.T) CaseA {
 	if padKind != "" {
 		c.Pad = choosePad(t, padKind, src, tops, st.NL)
 	}
+	c.Via = genDelivery(t)
 	return c
 }
 
@@ -94,12 +96,24 @@ func sigSlug(s string) string {
 }
 
 func comparePositive(prefix string, want profile.HavocConfig, src string, spell map[string][]string, classes []string) *core.Violation {
-	return comparePositiveBytes(prefix, want, []byte(src), src, spell, classes)
+	return comparePositiveBytes(prefix, want, []byte(src), src, spell, classes, nil)
 }
 
 // comparePositiveBytes loads text; src is what is shown in a report (the unpadded profile).
-func comparePositiveBytes(prefix string, want profile.HavocConfig, text []byte, src string, spell map[string][]string, classes []string) *core.Violation {
-	got, err := loadProfile(text)
+// via is the kind of path the loader is given (nil = regular file).
+func comparePositiveBytes(prefix string, want profile.HavocConfig, text []byte, src string, spell map[string][]string, classes []string, via *Delivery) *core.Violation {
+	v := comparePositiveVia(prefix, want, text, src, spell, classes, via)
+	if v != nil && via != nil {
+		if v.Sig != astralSig {
+			v.Sig += viaSig(via)
+		}
+		v.Msg = fmt.Sprintf("[the %d bytes of the profile reach the loader through a %s, pipe writes of %d bytes (0 = one write)]\n", len(text), viaName(via), via.Chunk) + v.Msg
+	}
+	return v
+}
+
+func comparePositiveVia(prefix string, want profile.HavocConfig, text []byte, src string, spell map[string][]string, classes []string, via *Delivery) *core.Violation {
+	got, err, _ := loadProfileVia(text, via)
 	if err != nil {
 		sum, line, all := diagText(err)
 		return core.V(prefix+"|rejected|"+sigSlug(sum)+"|"+topClass(classes), "a valid profile was rejected (line %d): %s\n--- profile ---\n%s", line, all, src)
@@ -136,12 +150,12 @@ func comparePositiveBytes(prefix string, want profile.HavocConfig, text []byte, 
 
 func checkA(c CaseA) *core.Violation {
 	if c.Pad == nil {
-		return comparePositive("load", c.Cfg, c.Src, c.Spell, c.Classes)
+		return comparePositiveBytes("load", c.Cfg, []byte(c.Src), c.Src, c.Spell, c.Classes, c.Via)
 	}
 	text, want, _ := expandPad(c.Src, c.Cfg, c.Pad)
 	l := padLabels(c.Pad, len(text))
 	note := fmt.Sprintf("[file of %d bytes: %s padding of kind %s inserted at byte %d / line %d of the text below, mode %s size %d]\n", len(text), l[1], c.Pad.Kind, c.Pad.At, c.Pad.Line, c.Pad.Mode, c.Pad.Size)
-	return comparePositiveBytes("load@"+l[1], want, text, note+c.Src, c.Spell, c.Classes)
+	return comparePositiveBytes("load@"+l[1], want, text, note+c.Src, c.Spell, c.Classes, c.Via)
 }
 
 func classifyA(c CaseA) core.Class {
@@ -167,6 +181,7 @@ func classifyA(c CaseA) core.Class {
 		}
 	}
 	cl.Labels = append(cl.Labels, padLabels(c.Pad, len(c.Src))...)
+	cl.Labels = append(cl.Labels, viaLabels(c.Via)...)
 	if c.Pad != nil {
 		cl.NonTrivial = true
 		key = "-" // padded cases are told apart by their size class
@@ -184,7 +199,7 @@ func TestMain(m *testing.M) {
 func TestC14a(t *testing.T) {
 	core.Run(t, core.Spec[CaseA]{
 		Property: "C14", Sub: "a",
-		Rule: "value of profile.HavocConfig generated from its yaotl struct tags (every optional block present/absent, 0-4 repeated user/Http/Smb/External blocks, lists and maps of 0-5 entries, int64 boundary and random ints, strings built from identifier-like text, quotes, backslashes, $ % { } template markers, control characters incl. NUL, Unicode incl. astral and non-NFC sequences, whole-line texts) printed with generated spelling (per character raw / \\n \\r \\t \\\" \\\\ / \\xHH per UTF-8 byte, $${ %%{, <<ID and <<-ID heredocs, numbers and booleans as literals or strings, exponent/leading-zero forms, bare or quoted labels and map keys, = or : in maps, shuffled items, # // /* */ comments, blank lines, CRLF, BOM, one-line blocks), loaded with profile.NewProfile().SetProfile; oracle: no error and every string/int/bool/list/map/label/repeated block equals the generated value. About 1 case in 150 (quick; 1 in 40 thorough) is padded at a boundary between two top-level blocks to a file size around 4 KiB / 64 KiB / 1 MiB (+-1, +-4 KiB) / 2 MiB / 4-5 MiB - either the whole file has that size or the text after the padding starts exactly at that offset - with comment lines, a block comment, blank lines, or a whole extra top-level block (WebHook with a huge heredoc, Listeners/Http with a huge Headers list, Demon/Binary with a huge ReplaceStrings map); generated blocks stand before and after the padding. Non-trivial: some string needs an escape, or a block type is repeated, or the file is padded; distinct = (#top-level blocks, repeated?, spelling classes used out of hex/heredoc/flush heredoc/template escape/number-as-string) or (file-size bucket, padding kind, mode). Layout dimensions (labels spell:<class>): any block whose body holds exactly one attribute and no nested block may be written in the single-line form `Type { Name = value }` / `Type \"label\" { Name = value }` (one-line-block, one-line-block-labelled), with nothing, tabs or a /* */ comment between the braces and the attribute (one-line-block-tight, one-line-block-comment) and with a value that spans lines inside [ ] / { } (one-line-block-multiline-value); blocks without items as `Type {}` / `Type { }` / `Type {/* none */}` (empty-block-one-line); no space, tabs or a comment between the block header and its brace (block-open-odd); runs of 2-6 blank lines with comment lines between items and before a closing brace (blank-lines-multi); an attribute with its own spacing around = (none, tabs, an aligned column: eq-spacing-per-attr); a comma after the last list element / map entry (list-trailing-comma, map-trailing-comma); CRLF line ends, no newline after the last line. Only layouts the parser of the unchanged tree accepts: it rejects a nested block closed on its parent's closing line, a nested block or two attributes inside a single-line block, and a heredoc as the value of a single-line block, so those are not written for valid profiles",
+		Rule: "value of profile.HavocConfig generated from its yaotl struct tags (every optional block present/absent, 0-4 repeated user/Http/Smb/External blocks, lists and maps of 0-5 entries, int64 boundary and random ints, strings built from identifier-like text, quotes, backslashes, $ % { } template markers, control characters incl. NUL, Unicode incl. astral and non-NFC sequences, whole-line texts) printed with generated spelling (per character raw / \\n \\r \\t \\\" \\\\ / \\xHH per UTF-8 byte, $${ %%{, <<ID and <<-ID heredocs, numbers and booleans as literals or strings, exponent/leading-zero forms, bare or quoted labels and map keys, = or : in maps, shuffled items, # // /* */ comments, blank lines, CRLF, BOM, one-line blocks), loaded with profile.NewProfile().SetProfile; oracle: no error and every string/int/bool/list/map/label/repeated block equals the generated value. About 1 case in 150 (quick; 1 in 40 thorough) is padded at a boundary between two top-level blocks to a file size around 4 KiB / 64 KiB / 1 MiB (+-1, +-4 KiB) / 2 MiB / 4-5 MiB - either the whole file has that size or the text after the padding starts exactly at that offset - with comment lines, a block comment, blank lines, or a whole extra top-level block (WebHook with a huge heredoc, Listeners/Http with a huge Headers list, Demon/Binary with a huge ReplaceStrings map); generated blocks stand before and after the padding. Non-trivial: some string needs an escape, or a block type is repeated, or the file is padded; distinct = (#top-level blocks, repeated?, spelling classes used out of hex/heredoc/flush heredoc/template escape/number-as-string) or (file-size bucket, padding kind, mode). Layout dimensions (labels spell:<class>): any block whose body holds exactly one attribute and no nested block may be written in the single-line form `Type { Name = value }` / `Type \"label\" { Name = value }` (one-line-block, one-line-block-labelled), with nothing, tabs or a /* */ comment between the braces and the attribute (one-line-block-tight, one-line-block-comment) and with a value that spans lines inside [ ] / { } (one-line-block-multiline-value); blocks without items as `Type {}` / `Type { }` / `Type {/* none */}` (empty-block-one-line); no space, tabs or a comment between the block header and its brace (block-open-odd); runs of 2-6 blank lines with comment lines between items and before a closing brace (blank-lines-multi); an attribute with its own spacing around = (none, tabs, an aligned column: eq-spacing-per-attr); a comma after the last list element / map entry (list-trailing-comma, map-trailing-comma); CRLF line ends, no newline after the last line. Only layouts the parser of the unchanged tree accepts: it rejects a nested block closed on its parent's closing line, a nested block or two attributes inside a single-line block, and a heredoc as the value of a single-line block, so those are not written for valid profiles. Delivery dimension (labels via:<kind>, via-pipe-writes:<one|pieces<512B|pieces>=512B>; about 1 case in 4, drawn after everything else): the path given to SetProfile is not a regular file but a symbolic link to one (via:symlink), a named pipe made with mkfifo that a writer feeds (via:named-pipe - what `--profile <(cmd)` or a mkfifo hand to the teamserver), or /proc/self/fd/N of an anonymous pipe (via:pipe-as-/proc/self/fd/N - what --profile /dev/stdin is); the writer hands the text over in one write or in pieces of 1 / 7 / 100 / 512 / 4096 / 65536 / 65537 bytes and then closes; text, expected value and oracle are those of the regular file (a stat size of 0, short reads and end-of-stream as end of text must not change what the profile means); signature suffix |via=<kind>",
 		Gen:   genA, Check: checkA, Classify: classifyA,
 		Assumptions: []string{
 			"attribute strings, list elements, map keys and values are compared after Unicode NFC: every cty string is NFC-normalised on entry (go-cty docs/types.md), which is the documented data model of the language; block labels do not pass through cty in the loader (they do in hclwrite), so a label is accepted either byte for byte or NFC-normalised",
